@@ -124,6 +124,12 @@ func progSuicide() []byte { // SELFDESTRUCT to calldata[0] (own address: burns)
 	a.push(0).op(opCALLDATALOAD).op(opSELFDESTRUCT)
 	return a.b
 }
+func progBlockEnv() []byte { // stores TIMESTAMP, NUMBER, COINBASE, GASLIMIT and CHAINID at slots 0..4 and returns the timestamp: what the block looks like from inside a contract
+	a := &asm{}
+	a.op(0x42).op(opDUP1).push(0).op(opSSTORE).op(0x43).push(1).op(opSSTORE).op(0x41).push(2).op(opSSTORE).op(0x45).push(3).op(opSSTORE).op(0x46).push(4).op(opSSTORE)
+	a.push(0).op(opMSTORE).push(32).push(0).op(opRETURN)
+	return a.b
+}
 func progBalanceReader() []byte { // stores BALANCE(calldata[0]) at slot 0 and returns it
 	a := &asm{}
 	a.push(0).op(opCALLDATALOAD).op(opBALANCE).op(opDUP1).push(0).op(opSSTORE).push(0).op(opMSTORE).push(32).push(0).op(opRETURN)
@@ -207,7 +213,7 @@ func (s *Sim) evmScenario(hs *EvmStats) error {
 					n string
 					c []byte
 				}{{"store", progStore(r)}, {"forward", progForward()}, {"reverter", progReverter()}, {"call-then-store", progCallThenStore()},
-					{"factory", progFactory(progStore(r))}, {"suicide", progSuicide()}, {"balance-reader", progBalanceReader()}, {"forward-all", progForwardAll()}}
+					{"factory", progFactory(progStore(r))}, {"suicide", progSuicide()}, {"balance-reader", progBalanceReader()}, {"forward-all", progForwardAll()}, {"block-env", progBlockEnv()}}
 				p := progs[r.Intn(len(progs))]
 				name = "deploy:" + p.n
 				spec = s.baseTx(6, from, make([]byte, 20))
